@@ -148,3 +148,49 @@ package server
 //@ property C15
 //@ requires it != nil
 //@ modifies nothing
+
+// The key under which (index, secondary key) -> primary key is stored.
+//@ ghostfun idxKey(string, string, string) string
+
+//@ func secondaryIndexKey
+//@ trusted
+//@ pure
+//@ requires si != nil
+//@ ensures result == idxKey(primaryKey, si.IndexName, si.SecondaryKey)
+//@ note trusted: fmt.Sprintf and url.PathEscape are outside the verified subset
+
+// Writing the index entries of a record makes exactly its declared entries present.
+//
+//@ func writeSecondaryIndexes
+//@ property C15
+//@ requires batch != nil && forall i int :: 0 <= i && i < len(secondaryIndexes) ==> secondaryIndexes[i] != nil
+//@ loop 0 modifies ghset(present, batch)
+//@ loop 0 invariant forall k string :: ghset(present, batch, k) <==> (old(ghset(present, batch, k)) || exists i int :: 0 <= i && i <= rangeindex && k == idxKey(primaryKey, secondaryIndexes[i].IndexName, secondaryIndexes[i].SecondaryKey))
+//@ ensures result == nil ==> forall k string :: ghset(present, batch, k) <==> (old(ghset(present, batch, k)) || exists i int :: 0 <= i && i < len(secondaryIndexes) && k == idxKey(primaryKey, secondaryIndexes[i].IndexName, secondaryIndexes[i].SecondaryKey))
+//@ modifies ghset(present, batch)
+
+// Deleting the index entries of a record removes exactly the entries it declared.
+//
+//@ func deleteSecondaryIndexes
+//@ property C15
+//@ requires batch != nil && existingEntry != nil && forall i int :: 0 <= i && i < len(existingEntry.SecondaryIndexes) ==> existingEntry.SecondaryIndexes[i] != nil
+//@ loop 0 modifies ghset(present, batch)
+//@ loop 0 invariant forall k string :: ghset(present, batch, k) <==> (old(ghset(present, batch, k)) && !exists i int :: 0 <= i && i <= rangeindex && k == idxKey(primaryKey, existingEntry.SecondaryIndexes[i].IndexName, existingEntry.SecondaryIndexes[i].SecondaryKey))
+//@ ensures result == nil ==> forall k string :: ghset(present, batch, k) <==> (old(ghset(present, batch, k)) && !exists i int :: 0 <= i && i < len(existingEntry.SecondaryIndexes) && k == idxKey(primaryKey, existingEntry.SecondaryIndexes[i].IndexName, existingEntry.SecondaryIndexes[i].SecondaryKey))
+//@ modifies ghset(present, batch)
+
+// Overwriting a record: the index entries of the old version go, those of the new
+// version are present afterwards (an entry declared by both stays present).
+//
+//@ func secondaryIndexesUpdateCallbackS.OnPut(recv, batch, request, existingEntry) (status, err)
+//@ property C15
+//@ requires batch != nil && request != nil && forall i int :: 0 <= i && i < len(request.SecondaryIndexes) ==> request.SecondaryIndexes[i] != nil
+//@ requires existingEntry != nil ==> forall i int :: 0 <= i && i < len(existingEntry.SecondaryIndexes) ==> existingEntry.SecondaryIndexes[i] != nil
+//@ ensures err == nil ==> forall k string :: ghset(present, batch, k) <==> ((exists i int :: 0 <= i && i < len(request.SecondaryIndexes) && k == idxKey(request.Key, request.SecondaryIndexes[i].IndexName, request.SecondaryIndexes[i].SecondaryKey)) || (old(ghset(present, batch, k)) && !(existingEntry != nil && exists j int :: 0 <= j && j < len(existingEntry.SecondaryIndexes) && k == idxKey(request.Key, existingEntry.SecondaryIndexes[j].IndexName, existingEntry.SecondaryIndexes[j].SecondaryKey))))
+//@ modifies ghset(present, batch)
+
+//@ func secondaryIndexesUpdateCallbackS.OnDeleteWithEntry(recv, batch, key, value) (err)
+//@ property C15
+//@ requires batch != nil && value != nil && forall i int :: 0 <= i && i < len(value.SecondaryIndexes) ==> value.SecondaryIndexes[i] != nil
+//@ ensures err == nil ==> forall k string :: ghset(present, batch, k) <==> (old(ghset(present, batch, k)) && !exists i int :: 0 <= i && i < len(value.SecondaryIndexes) && k == idxKey(key, value.SecondaryIndexes[i].IndexName, value.SecondaryIndexes[i].SecondaryKey))
+//@ modifies ghset(present, batch)
